@@ -114,11 +114,18 @@ pub fn gen_giant_inbound(r: &mut Rng, seq: u8) -> Plan {
 /// `text_only`: the giant command is a QUERY or PREPARE (its text must reach the right callback
 /// verbatim), with two or three full packets more often than one
 pub fn gen_giant_inbound_opts(r: &mut Rng, seq: u8, text_only: bool) -> Plan {
-    let k = match r.weighted(if text_only { &[25, 45, 30] } else { &[55, 30, 15] }) {
+    gen_giant_inbound_k(r, seq, text_only, None)
+}
+
+/// `force_k`: number of full packets (4 full packets = 64 MiB - 4 bytes, just under the
+/// `@@max_allowed_packet` the library itself announces)
+pub fn gen_giant_inbound_k(r: &mut Rng, seq: u8, text_only: bool, force_k: Option<u64>) -> Plan {
+    let drawn = match r.weighted(if text_only { &[25, 45, 30] } else { &[55, 30, 15] }) {
         0 => 1u64,
         1 => 2,
         _ => 3,
     };
+    let k = force_k.unwrap_or(drawn);
     let d = r.irange(-3, 3);
     let len = ((k * U24) as i64 + d) as u32;
     let mut cmds = Vec::new();
@@ -399,6 +406,10 @@ pub const GIANTS_T: u64 = 1200;
 
 fn gen_c01(r: &mut Rng, t: Tier, job: u64) -> Plan {
     let giants = if t == Tier::Quick { GIANTS_Q } else { GIANTS_T };
+    if job == 0 || (t == Tier::Thorough && job % 100 == 0 && job < giants) {
+        // the largest command a client is entitled to send: 4 full packets (+ the empty one)
+        return gen_giant_inbound_k(r, 0, true, Some(4));
+    }
     if job < giants {
         return gen_giant_inbound(r, 0);
     }
